@@ -140,3 +140,127 @@ def weak_orderings(n):
     norm = tuple(used.index(r) for r in ranks)
     out.add(norm)
   return sorted(out)
+
+
+# ---------------------------------------------------------------------------------------------
+# Mixed predicates: several integer terms plus opaque boolean atoms (truthiness, == None, == tuple)
+def bool_key(c):
+  """Canonical (key, polarity) of a non-numeric atomic condition, or None if c is a numeric comparison."""
+  if c[0] == "truthy":
+    return ("truthy", repr(as_poly(c[1]) if not isinstance(c[1], (Const, Seq)) else c[1])), True
+  if c[0] == "square":
+    return ("square", repr(c[1])), True
+  if c[0] == "opaque":
+    return ("opaque", repr(c[1])), True
+  if c[0] == "cmp":
+    a, b = c[2], c[3]
+    numeric = not isinstance(a, (Seq,)) and not isinstance(b, (Seq,)) and not (isinstance(a, Const) and not isinstance(a.v, (int, bool))) \
+        and not (isinstance(b, Const) and not isinstance(b.v, (int, bool)))
+    if numeric and c[1] in CMP:
+      return None
+    ra, rb = sorted([repr(a), repr(b)])
+    if c[1] in ("Eq", "Is"):
+      return ("same", ra, rb), True
+    if c[1] in ("NotEq", "IsNot"):
+      return ("same", ra, rb), False
+    if c[1] == "In":
+      return ("in", repr(a), repr(b)), True
+    if c[1] == "NotIn":
+      return ("in", repr(a), repr(b)), False
+  return ("other", repr(c)), True
+
+
+class MixedValuation(Valuation):
+  def __init__(self, assign, bools):
+    super().__init__(assign)
+    self.bools = bools
+
+  def truth(self, key):
+    return self.bools[key]
+
+
+def eval_mixed(c, val):
+  k = c[0]
+  if k == "const":
+    return bool(c[1])
+  if k == "not":
+    return not eval_mixed(c[1], val)
+  if k == "and":
+    return all(eval_mixed(x, val) for x in c[1])
+  if k == "or":
+    return any(eval_mixed(x, val) for x in c[1])
+  bk = bool_key(c)
+  if bk is None:
+    return CMP[c[1]](val.value(c[2]), val.value(c[3]))
+  key, pol = bk
+  if key not in val.bools:
+    raise Unknown("boolean atom %r not enumerated" % (key,))
+  return val.bools[key] == pol
+
+
+def equivalent_mixed(pos_paths, spec, mains=(), bool_atoms=(), limit=400000):
+  """Like equivalent_dnf with several varying integer atoms (mains, Polys) and boolean atoms.
+  spec(val) may use val[poly] and val.truth(key) for key in bool_key(...)[0]."""
+  import itertools as it
+  conds = [c for path in pos_paths for c, _ in path]
+  atoms, consts = collect([c for c in conds])
+  bkeys = set(bool_atoms)
+  for c in conds:
+    for a in cond_atoms(c):
+      bk = bool_key(a)
+      if bk is not None:
+        bkeys.add(bk[0])
+  # atoms that only occur inside boolean atoms are irrelevant for numeric enumeration
+  num_atoms = set()
+  for c in conds:
+    for a in cond_atoms(c):
+      if bool_key(a) is None:
+        for side in (a[2], a[3]):
+          if not isinstance(side, Const):
+            num_atoms |= as_poly(side).atoms()
+  main_atoms = []
+  for m in mains:
+    ma = as_poly(m).as_atom()
+    if ma is None:
+      return None, "main term is not atomic"
+    main_atoms.append(ma)
+    num_atoms.add(ma)
+  others = sorted((a for a in num_atoms if a not in main_atoms), key=repr)
+  if len(others) > 4:
+    return None, "too many symbolic comparison operands"
+  span = max([abs(c) for c in consts] + [1]) * 4 + 1000
+  base = {a: span * (i + 2) for i, a in enumerate(others)}
+  points = set(consts) | set(base.values()) | {0}
+  cand = set()
+  for p in points:
+    for c in list(consts) + [0]:
+      for d in (-1, 0, 1):
+        cand.add(p + c + d)
+        cand.add(p - c + d)
+  tests = sorted(cand)
+  bkeys = sorted(bkeys, key=repr)
+  total = (len(tests) ** len(main_atoms)) * (2 ** len(bkeys))
+  if total > limit:
+    # thin the numeric grid: keep representatives around the symbolic constants and literals only
+    tests = sorted({t for t in tests if any(abs(t - p) <= 1 for p in points)})
+    total = (len(tests) ** len(main_atoms)) * (2 ** len(bkeys))
+    if total > limit:
+      return None, "region product too large (%d)" % total
+  checked = 0
+  try:
+    for nums in it.product(tests, repeat=len(main_atoms)):
+      assign = dict(base)
+      for a, v in zip(main_atoms, nums):
+        assign[a] = v
+      for bits in it.product((False, True), repeat=len(bkeys)):
+        val = MixedValuation(assign, dict(zip(bkeys, bits)))
+        code = any(all(eval_mixed(c, val) == pol for c, pol in path) for path in pos_paths)
+        want = bool(spec(val))
+        checked += 1
+        if code != want:
+          return False, "predicates differ at %s, %s: code %s, specification %s" % (
+              {repr(a)[:40]: v for a, v in zip(main_atoms, nums)}, {str(k)[:60]: b for k, b in zip(bkeys, bits)},
+              "acts" if code else "does not act", "requires it" if want else "forbids it")
+  except Unknown as u:
+    return None, "outside the decidable fragment: %s" % u
+  return True, "equivalent on all %d combinations of region representatives and boolean atoms" % checked
